@@ -15,9 +15,10 @@ lengths agree within `ε`, `fage v` the age `calc_node_ages` assigns without for
   `reject_only_beyond_precision`,
   `check_disabled_spec`, `force_max_spec`, `force_min_spec`, `force_both_spec` — clause (a)/(b) for ages
 * `lengths_from_ages_roundtrip_partial` (exact), `lengths_from_ages_within`, `lengths_from_ages_roundtrip`, `lineages_spec_all`, `lineages_spec`, `leaf_depths_spec`, `node_depths_spec`, `minmax_spec`, `resolve_ages_spec`,
-  `returned_list_spec`, `set_lengths_spec`, `lineages_between_speciations` — clause (a)
+  `returned_list_spec`, `set_lengths_spec`, `with_ages_wellformed`, `lineages_between_speciations`,
+  `lineages_between_speciations_all` — clause (a)
 * `length_eq_def`, `sackin_eq_def`, `nbar_eq_def`, `colless_eq_def`, `b1_eq_def`, `treeness_eq_def`, `gamma_loop_eq_sums`,
-  `gamma_eq_def_partial`, `gamma_succeeds`, `gamma_eq_def` (with `lineages_between_speciations`) — clause (c)
+  `colless_yule_rational`, `pda_yule_norms_spec`, `gamma_eq_def_partial`, `gamma_succeeds`, `gamma_eq_def` (with `lineages_between_speciations`) — clause (c)
 * `stats_perm_invariant_partial` (all but gamma), `gamma_perm_invariant`, `stats_perm_invariant` — child-order independence. -/
 namespace DendroModel.C17.Aux
 open DendroModel DendroModel.C17
@@ -227,6 +228,33 @@ theorem gamma_unfold (prec : Option Frac) (hprec : ∀ p, prec = some p → p.WF
       | .error e => .error e
       | .ok p => gammaSignedSq p) := by
   unfold gamma; rw [accept_exact prec hprec t hw hu]; rfl
+
+theorem nLeaves_pos : ∀ t : T, 0 < nLeaves t
+  | .node _ _ _ _ [] => by simp [nLeaves]
+  | .node _ _ _ _ (c :: cs) => by
+    have := nLeaves_pos c
+    simp only [nLeaves, nLeavesL]; omega
+
+theorem fdiv_ok {a b : Frac} (ha : a.WF) (hb : b.WF) (h0 : b.toRat ≠ 0) :
+    ∃ r, fdiv a b = .ok r ∧ r.toRat = a.toRat / b.toRat := by
+  have hz : b.isZero = false := by
+    cases hbz : b.isZero with
+    | false => rfl
+    | true => exact absurd ((Frac.isZero_iff hb).mp hbz) h0
+  exact ⟨Frac.div a b, by simp [fdiv, hz], Frac.div_toRat ha hb⟩
+
+mutual
+theorem withAges_awf (tbl : List (Nat × Frac)) (h : ∀ p ∈ tbl, p.2.WF) : ∀ t : T, AWF (withAges tbl t)
+  | .node i x l s cs => by
+    refine ⟨?_, withAgesL_awf tbl h cs⟩
+    unfold lookup
+    cases hf : tbl.find? (fun p => p.1 == i) with
+    | none => exact Frac.zero_wf
+    | some p => exact h p (List.mem_of_find?_eq_some hf)
+theorem withAgesL_awf (tbl : List (Nat × Frac)) (h : ∀ p ∈ tbl, p.2.WF) : ∀ cs : List T, AWFL (withAgesL tbl cs)
+  | [] => by simp [withAgesL, AWFL]
+  | c :: cs => ⟨withAges_awf tbl h c, withAgesL_awf tbl h cs⟩
+end
 
 end DendroModel.C17.Aux
 
@@ -640,6 +668,55 @@ theorem set_lengths_spec (minLen : Option Frac) (hm : ∀ m, minLen = some m →
     obtain ⟨r, hr, hl⟩ := h2 h
     exact ⟨.node i ag l r, by simp [setLens, hr], by simp [atLens, hl]⟩
 
+/-- Lineages between speciation events on ANY non-negative edge lengths, boundaries included.  As
+`lineages_between_speciations`, but zero-length edges are allowed (no `None` below the root): at every `0 < d ≤ H` with
+`H − S_j < d ≤ H − S_{j+1}` (so `d` may sit exactly ON the speciation event `H − S_{j+1}`, and tied ages simply give
+empty stretches) `num_lineages_at d` is `j + 2` plus the number of zero-length edges lying exactly at distance `d` —
+which is what the code's extra test `root_distance == d` adds; with positive lengths that number is 0. -/
+theorem lineages_between_speciations_all (t : T) (hw : WFT t) (hnn : NoNone t) (hb : binary t = true) (hpos : NonNeg t)
+    (hu : Within 0 t)
+    (d : Frac) (hd : d.WF) (hd0 : 0 < d.toRat) (hdH : d.toRat ≤ (fage t).toRat) (j : Nat)
+    (hj : j < ((sortDesc (specAges (annot t)).1).map Frac.toRat).length)
+    (hlo : (fage t).toRat - ((sortDesc (specAges (annot t)).1).map Frac.toRat).getD j 0 < d.toRat)
+    (hhi : d.toRat ≤ (fage t).toRat - ((sortDesc (specAges (annot t)).1).map Frac.toRat).getD (j + 1) 0) :
+    numLineagesAt d t = .ok (j + 2 + (edgesL 0 t.cs).countP (zeroAt d.toRat)) := by
+  obtain ⟨hperm, _⟩ := specAges_annot t
+  have hwfS : ∀ x ∈ (specAges (annot t)).1, x.WF := by
+    intro x hx
+    obtain ⟨v, _, rfl⟩ := List.mem_map.mp (hperm.subset hx)
+    exact fage_wf v
+  have hH : (fage t).toRat = fageQ t := fage_toRat t hw
+  have htip : ∀ x ∈ tipDists t, (0 : ℚ) + x = (fage t).toRat := by
+    intro x hx
+    have := abs_nonpos_iff.mp (hu x hx (fageQ t) (fageQ_mem t))
+    rw [hH]; linarith
+  -- the count over the sorted list equals the count over the internal nodes
+  have hcount : ((sortDesc (specAges (annot t)).1).map Frac.toRat).countP
+        (fun a => decide ((fage t).toRat - d.toRat < a))
+      = (T.nodes t).countP (fun v => !v.isLeaf && decide ((fage t).toRat - d.toRat < fageQ v)) := by
+    have hp2 : ((sortDesc (specAges (annot t)).1).map Frac.toRat).Perm
+        ((((T.nodes t).filter isBif).map fage).map Frac.toRat) := ((sortDesc_perm _).trans hperm).map _
+    rw [hp2.countP_eq, List.countP_map, List.countP_map, List.countP_filter]
+    apply List.countP_congr
+    intro v hv
+    have hvq : (fage v).toRat = fageQ v := fage_toRat v (nodes_wft t hw v hv)
+    simp only [Function.comp, hvq, binary_nodes t hb v hv, Bool.and_eq_true, decide_eq_true_eq]
+    exact ⟨fun h => ⟨h.2, h.1⟩, fun h => ⟨h.2, h.1⟩⟩
+  have hdesc : ((sortDesc (specAges (annot t)).1).map Frac.toRat).Pairwise (fun a b => b ≤ a) :=
+    List.pairwise_map.mpr (sortDesc_desc _ hwfS)
+  have hS := countP_desc _ j ((fage t).toRat - d.toRat) hdesc hj (by linarith) (fun _ => by linarith)
+  cases t with
+  | node i x l s cs =>
+    cases cs with
+    | nil => simp [annot, annotL, specAges, specAgesL, sortDesc] at hj
+    | cons c cs =>
+      have hc := cross_count_all d.toRat (fage (.node i x l s (c :: cs))).toRat hdH (.node i x l s (c :: cs)) 0 hb hpos htip
+      have hi := intBefore_ages d.toRat (fage (.node i x l s (c :: cs))).toRat (.node i x l s (c :: cs)) 0 htip
+      rw [lineages_spec_all d hd _ hw hnn]
+      have : (fun e : ℚ × ℚ => decide (e.2 = d.toRat ∨ (e.1 < d.toRat ∧ d.toRat ≤ e.2))) = crossAll d.toRat := rfl
+      rw [this, hc, hi, ← hcount, hS]
+      simp [T.isLeaf, T.cs, hd0]
+
 /-! ## clause (c): statistics equal their definitions -/
 
 /-- `Tree.length` is the sum over all nodes of the edge length (`None` = 0). -/
@@ -700,6 +777,57 @@ theorem colless_eq_def (t : T) :
     have h3 : (((nLeaves t : Int) * ((nLeaves t : Int) - 3) + 2 : Int) : ℚ) = ((nLeaves t : ℚ) - 1) * ((nLeaves t : ℚ) - 2) := by
       push_cast; ring
     rw [h3]; push_cast; field_simp
+
+/-- Colless, Yule normalisation: everything but the evaluation of the logarithms.  With `lnN` standing for `ln n` and `k`
+for `γ − 1 − ln 2` (handed in as numbers), the value on a strictly bifurcating tree is `I/n − lnN − k`, i.e.
+`(I − n ln n − n(γ − 1 − ln 2))/n` as published (Blum, François & Janson 2006). -/
+theorem colless_yule_rational (lnN k : Frac) (hl : lnN.WF) (hk : k.WF) (t : T) (hb : binary t = true) :
+    ∃ r, collessYuleWith lnN k t = .ok r ∧
+      r.toRat = (collessDef t : ℚ) / (nLeaves t : ℚ) - lnN.toRat - k.toRat := by
+  have hn : ((nLeaves t : ℕ) : ℚ) ≠ 0 := by exact_mod_cast (Nat.pos_iff_ne_zero.mp (nLeaves_pos t))
+  have hwf : (Frac.ofNat (collessDef t) - Frac.ofNat (nLeaves t) * lnN - Frac.ofNat (nLeaves t) * k).WF := Frac.sub_wf _ _
+  obtain ⟨r, hr, hq⟩ := fdiv_ok hwf (Frac.ofNat_wf (nLeaves t)) (by rw [Frac.ofNat_toRat]; exact hn)
+  refine ⟨r, by simp [collessYuleWith, collessAcc_spec t, hb, hr], ?_⟩
+  rw [hq, Frac.sub_toRat (Frac.sub_wf _ _) (Frac.mul_wf _ _), Frac.sub_toRat (Frac.ofNat_wf _) (Frac.mul_wf _ _),
+    Frac.mul_toRat (Frac.ofNat_wf _) hl, Frac.mul_toRat (Frac.ofNat_wf _) hk, Frac.ofNat_toRat, Frac.ofNat_toRat]
+  field_simp
+
+/-- The PDA normalisations, everything but the square root: the model's value is the square `I²/n³` (Colless, on a
+strictly bifurcating tree) resp. `S²/n³` (Sackin), i.e. the published `I/n^{3/2}`, `S/n^{3/2}` squared; and the Yule
+normalisation of Sackin is `S/n − 2 Σ_{j=2}^{n} 1/j`, its mean normalisation `S/n`. -/
+theorem pda_yule_norms_spec (t : T) :
+    (binary t = true → ∃ r, colless .pdaSq t = .ok r ∧ r.toRat = (collessDef t : ℚ) ^ 2 / (nLeaves t : ℚ) ^ 3) ∧
+    (∃ r, sackin .pdaSq t = .ok r ∧ r.toRat = (sackinDef t : ℚ) ^ 2 / (nLeaves t : ℚ) ^ 3) ∧
+    (∃ r, sackin .yule t = .ok r ∧
+      r.toRat = (sackinDef t : ℚ) / (nLeaves t : ℚ) - 2 * ∑ j ∈ Finset.Icc 2 (nLeaves t), (1 : ℚ) / j) ∧
+    (∃ r, sackin .mean t = .ok r ∧ r.toRat = (sackinDef t : ℚ) / (nLeaves t : ℚ)) := by
+  have hn : ((nLeaves t : ℕ) : ℚ) ≠ 0 := by exact_mod_cast (Nat.pos_iff_ne_zero.mp (nLeaves_pos t))
+  have hn3 : ((nLeaves t * nLeaves t * nLeaves t : ℕ) : ℚ) ≠ 0 := by push_cast; positivity
+  obtain ⟨hH, hHq⟩ := harmonic_eq_def (nLeaves t)
+  refine ⟨fun hb => ?_, ?_, ?_, ?_⟩
+  · obtain ⟨r, hr, hq⟩ := fdiv_ok (Frac.ofNat_wf (collessDef t * collessDef t))
+      (Frac.ofNat_wf (nLeaves t * nLeaves t * nLeaves t)) (by rw [Frac.ofNat_toRat]; exact hn3)
+    refine ⟨r, by simp [colless, collessAcc_spec t, hb, hr], ?_⟩
+    rw [hq, Frac.ofNat_toRat, Frac.ofNat_toRat]; push_cast; ring
+  · obtain ⟨r, hr, hq⟩ := fdiv_ok (Frac.ofNat_wf (sackinDef t * sackinDef t))
+      (Frac.ofNat_wf (nLeaves t * nLeaves t * nLeaves t)) (by rw [Frac.ofNat_toRat]; exact hn3)
+    refine ⟨r, by simp [sackin, sackin_eq_def, hr], ?_⟩
+    rw [hq, Frac.ofNat_toRat, Frac.ofNat_toRat]; push_cast; ring
+  · have hwf : (Frac.ofNat (sackinDef t) - Frac.ofNat (2 * nLeaves t) * harmonicFrom2 (nLeaves t)).WF := Frac.sub_wf _ _
+    obtain ⟨r, hr, hq⟩ := fdiv_ok hwf (Frac.ofNat_wf (nLeaves t)) (by rw [Frac.ofNat_toRat]; exact hn)
+    refine ⟨r, by simp [sackin, sackin_eq_def, hr], ?_⟩
+    rw [hq, Frac.sub_toRat (Frac.ofNat_wf _) (Frac.mul_wf _ _), Frac.mul_toRat (Frac.ofNat_wf _) hH, hHq,
+      Frac.ofNat_toRat, Frac.ofNat_toRat, Frac.ofNat_toRat]
+    push_cast; field_simp
+  · obtain ⟨r, hr, hq⟩ := fdiv_ok (Frac.ofNat_wf (sackinDef t)) (Frac.ofNat_wf (nLeaves t))
+      (by rw [Frac.ofNat_toRat]; exact hn)
+    exact ⟨r, by simp [sackin, sackin_eq_def, hr], by rw [hq, Frac.ofNat_toRat, Frac.ofNat_toRat]⟩
+
+/-- The ages handed to `set_edge_lengths_from_node_ages` through the protocol: attaching a table of well-formed ages to a
+tree yields well-formed `age` attributes on every node (a missing id reads as 0), which is the hypothesis of
+`set_lengths_spec`; so that theorem applies to every `setlen` line the driver accepts. -/
+theorem with_ages_wellformed (tbl : List (Nat × Frac)) (h : ∀ p ∈ tbl, p.2.WF) (t : T) : AWF (withAges tbl t) :=
+  withAges_awf tbl h t
 
 /-- B1 is the sum over the internal nodes other than the root of 1 / (number of edges to the farthest tip below). -/
 theorem b1_eq_def (t : T) :
@@ -1074,6 +1202,50 @@ example : numLineagesAt Frac.zero (.node 0 none none none [.node 1 (some 0) (som
   rw [lineages_spec_all Frac.zero Frac.zero_wf _ (by simp [WFT, WFTL, olen, Frac.WF, Frac.zero])
     (by simp [NoNone, NoNoneL, T.len])]
   simp [T.cs, edgesL, qlen, olen, Frac.toRat, Frac.zero]
+
+/-- `colless_yule_rational` and `pda_yule_norms_spec` instantiated on `exTree` (binary, 3 leaves, Colless 1, Sackin 5) -/
+example : (∃ r, collessYuleWith ⟨1, 1⟩ ⟨1, 2⟩ exTree = .ok r ∧ r.toRat = (1 : ℚ) / 3 - 1 - 1 / 2) ∧
+    (∃ r, colless .pdaSq exTree = .ok r ∧ r.toRat = (1 : ℚ) ^ 2 / 3 ^ 3) := by
+  have hI : collessDef exTree = 1 := by decide
+  have hn : nLeaves exTree = 3 := by decide
+  constructor
+  · obtain ⟨r, hr, hq⟩ := colless_yule_rational ⟨1, 1⟩ ⟨1, 2⟩ (by simp [Frac.WF]) (by simp [Frac.WF]) exTree rfl
+    exact ⟨r, hr, by rw [hq, hI, hn]; norm_num [Frac.toRat]⟩
+  · obtain ⟨r, hr, hq⟩ := (pda_yule_norms_spec exTree).1 rfl
+    exact ⟨r, hr, by rw [hq, hI, hn]; norm_num⟩
+
+/-- `with_ages_wellformed` + `set_lengths_spec` apply to a table as the driver builds it -/
+example : AWF (withAges [(0, ⟨2, 1⟩), (1, ⟨1, 1⟩)] exTree) :=
+  with_ages_wellformed _ (by intro p hp; simp at hp; rcases hp with rfl | rfl <;> simp [Frac.WF]) exTree
+
+/-- `((A:1,B:1):0,C:1)`: a zero-length internal edge -/
+def exZero : T :=
+  .node 0 none none none
+    [.node 1 none (some ⟨0, 1⟩) none [.node 2 (some 0) (some ⟨1, 1⟩) none [], .node 3 (some 1) (some ⟨1, 1⟩) none []],
+     .node 4 (some 2) (some ⟨1, 1⟩) none []]
+
+/-- `lineages_between_speciations_all` instantiated on a tree WITH a zero-length edge (`S = [1, 1]`, `H = 1`), `j = 1`,
+`d = 1`: three lineages, no zero-length edge at distance 1 -/
+example : numLineagesAt ⟨1, 1⟩ exZero = .ok 3 := by
+  have hS : (sortDesc (specAges (annot exZero)).1).map Frac.toRat = [1, 1] := by
+    have : sortDesc (specAges (annot exZero)).1 = [⟨1, 1⟩, ⟨1, 1⟩] := by rfl
+    rw [this]; norm_num [Frac.toRat]
+  have hH : (fage exZero).toRat = 1 := by
+    have : fage exZero = ⟨1, 1⟩ := by rfl
+    rw [this]; norm_num [Frac.toRat]
+  have hd : (⟨1, 1⟩ : Frac).toRat = 1 := by norm_num [Frac.toRat]
+  have hw : WFT exZero := by simp [exZero, WFT, WFTL, olen, Frac.WF, Frac.zero]
+  have hn : NoNone exZero := by simp [exZero, NoNone, NoNoneL, T.len]
+  have hnn : NonNeg exZero := by simp [exZero, NonNeg, NonNegL, T.len, qlen, olen, Frac.toRat]
+  have hu : Within 0 exZero := by
+    intro d hd d' hd'
+    simp [exZero, tipDists, tipDistsL, T.len, qlen, olen, Frac.toRat] at hd hd'
+    rcases hd with rfl | rfl | rfl <;> rcases hd' with rfl | rfl | rfl <;> norm_num
+  have := lineages_between_speciations_all exZero hw hn rfl hnn hu
+    ⟨1, 1⟩ (by simp [Frac.WF]) (by rw [hd]; norm_num) (by rw [hd, hH]) 1 (by rw [hS]; simp)
+    (by rw [hS, hH, hd]; norm_num) (by rw [hS, hH, hd]; norm_num)
+  rw [this]
+  simp [exZero, T.cs, edgesL, zeroAt, qlen, olen, Frac.toRat]
 
 /-- a child-shuffled copy -/
 example : Iso exTree (.node 0 none none none
